@@ -6,7 +6,7 @@ different identifiers = the condition was refactored -> unrecognised (re-review)
 import json
 import os
 import re
-from astu import C, ctxt, gt_pair, eq_const, strip, walk, txt, short, functions_by
+from astu import C, ctxt, gt_pair, eq_const, reach, reach_txt, ctext, strip, walk, txt, short, functions_by
 from vlib.core import ob, VERIF
 
 VERBS = re.compile(r"^(resize|rebuild|compress|compact|grow|purge|shrink|flush|move_window|promote|switch_to|convert|reduce_k|trim|sort|merge_|shift|downsample|upsize|internal_|process_|add_empty|ensure_|zip_|check_grow|checkGrow|growAux|growHash)")
@@ -58,36 +58,90 @@ def canon_env(fn):
             env[x["d"]] = "local<%s>#%d" % (t, cnt[t])
     for i, pm in enumerate(fn.get("params", [])):
         env[pm["d"]] = "param#%d" % i
+    # the element of a range-for (index loops over a container are exported in that form too) is named by what it ranges over
+
+    def rv(n):
+        if n.get("k") == "RangeFor" and isinstance(n.get("var"), dict) and "d" in n["var"]:
+            env[n["var"]["d"]] = "elem:" + txt(n.get("range"), inl).replace(" ", "")[:60]
+    walk(fn.get("body"), rv)
+    return env
+
+
+def idc(e, env, ids, consts, depth=0):
+    """identifiers and constants of an expression.  env: decl id -> identity string (canon_env), or ("expr", node, env2): the
+    local / parameter stands for that expression (a single-assignment local for its initialiser, a parameter of an inlined helper
+    for the caller's argument) and contributes the identifiers / constants of that expression instead of a name"""
+    if isinstance(e, list):
+        for x in e:
+            idc(x, env, ids, consts, depth)
+        return
+    if not isinstance(e, dict):
+        return
+    k = e.get("k")
+    if k == "Ref":
+        if "v" in e:
+            if e.get("t") != "bool" or True:
+                consts.append(e["v"])
+            return
+        b = env.get(e.get("d"))
+        if isinstance(b, tuple):
+            if depth < 8:
+                idc(b[1], b[2] if len(b) > 2 and b[2] is not None else env, ids, consts, depth + 1)
+            return
+        ids.append(b or e.get("n"))
+        return
+    if k == "Member" and "v" not in e:
+        ids.append(e.get("n") or e.get("f"))
+    elif k == "Call":
+        ids.append(e.get("cname"))
+    if "v" in e and k not in ("Call", "Assign", "Bin", "Un", "Cast", "Cond", "Paren", "OpCall"):
+        consts.append(e["v"])
+        if k in ("Member", "Int", "Sizeof", "Char", "Bool", "Float"):
+            return
+    for kk, v in e.items():
+        if isinstance(v, (dict, list)):
+            idc(v, env, ids, consts, depth)
+
+
+def flat_env(fn):
+    """canon_env with single-assignment locals standing for their initialisers (hoisting a sub-expression into a const local, or
+    inlining one, does not change the identifiers / constants of a condition)"""
+    from astu import single_assignment_locals
+    env = dict(canon_env(fn))
+    sa = single_assignment_locals(fn)
+    for d, ident in list(env.items()):
+        if ident.startswith("=") and d in sa:
+            env[d] = ("expr", sa[d], None)
     return env
 
 
 def parts(c, env=None):
-    """(oriented operator, identifiers, constants) of a comparison; orientation: lexicographically smaller side on the left.
-    With env (see canon_env) locals and parameters are named by their rename-invariant identity."""
+    """(oriented operator, identifiers, constants, text) of a comparison; orientation: the side with the smaller (identifiers,
+    constants, shape) on the left.  With env (canon_env / flat_env) locals and parameters are named by rename-invariant identities."""
     env = env or {}
 
-    def ctext(e):
-        ids = []
-        walk(e, lambda n: ids.append(env.get(n.get("d"), n.get("n") or "")) if n.get("k") == "Ref" else (ids.append(n.get("f")) if n.get("k") == "Member" else (ids.append(n.get("cname")) if n.get("k") == "Call" else None)))
-        return "|".join(str(x) for x in ids) + "#" + re.sub(r"[A-Za-z_][A-Za-z_0-9]*", "", txt(e))
+    def side(e):
+        i, k = [], []
+        idc(e, env, i, k)
+        return ([str(x) for x in i if x], sorted(str(x) for x in k), re.sub(r"[A-Za-z_][A-Za-z_0-9]*", "", txt(e)))
     l, r = txt(c["l"]), txt(c["r"])
     op = c["op"]
-    if ctext(c["l"]) > ctext(c["r"]):
+    sl, sr = side(c["l"]), side(c["r"])
+    if sl == sr:
+        # a snapshot local compared with its own source (`before < field`): tell the sides apart without flattening
+        shallow = {d: (v if not isinstance(v, tuple) else "snapshot") for d, v in env.items()}
+
+        def side2(e):
+            i, k = [], []
+            idc(e, shallow, i, k)
+            return ([str(x) for x in i if x], sorted(str(x) for x in k))
+        sl, sr = side2(c["l"]), side2(c["r"])
+    if sl > sr:
         l, r, op = r, l, FLIP[op]
     ids, consts = [], []
-
-    def v(n):
-        k = n.get("k")
-        if k == "Ref" and "v" not in n:
-            ids.append(env.get(n.get("d"), n.get("n")))
-        elif k == "Member" and "v" not in n:
-            ids.append(n.get("n") or n.get("f"))
-        elif k == "Call":
-            ids.append(n.get("cname"))
-        if "v" in n and k not in ("Call", "Assign", "Bin", "Un", "Cast", "Cond"):
-            consts.append(n["v"])
-    walk(c, v)
-    return op, sorted(x for x in ids if x), sorted(consts), "(%s%s%s)" % (l, op, r)
+    idc(c["l"], env, ids, consts)
+    idc(c["r"], env, ids, consts)
+    return op, sorted(str(x) for x in ids if x), sorted(consts, key=lambda x: (str(type(x)), x)), "(%s%s%s)" % (l, op, r)
 
 
 def inventory(facts):
@@ -99,7 +153,7 @@ def inventory(facts):
     for pat, fn in sorted(fns.items()):
         if not fn.get("rect") or fn.get("body") is None:
             continue
-        env = canon_env(fn)
+        env = flat_env(fn)
         calls = []
         walk(fn["body"], lambda x: calls.append(x) if x.get("k") == "Call" and x.get("cname") and VERBS.match(x["cname"]) and (x.get("crec") or "").startswith("datasketches::") else None)
         calls.sort(key=_loc_key)
